@@ -441,6 +441,7 @@ type Clause struct {
 type AssignItem struct {
 	Src  string
 	Expr *Node // a location expression: x.f, s[lo:hi], *p, global; "nothing"/"everything" handled separately
+	Upto int   // s[lo:hi] upto N: the range has at most N elements (quantifier-free havoc)
 }
 
 type Contract struct {
@@ -768,11 +769,16 @@ func parseClause(c *Contract, word, rest string) error {
 			case "everything":
 				c.AssignsEv = true
 			default:
+				upto := 0
+				if i := strings.Index(it, " upto "); i >= 0 {
+					fmt.Sscanf(strings.TrimSpace(it[i+6:]), "%d", &upto)
+					it = strings.TrimSpace(it[:i])
+				}
 				e, err := parseSpecExpr(it)
 				if err != nil {
 					return err
 				}
-				c.Assigns = append(c.Assigns, AssignItem{Src: it, Expr: e})
+				c.Assigns = append(c.Assigns, AssignItem{Src: it, Expr: e, Upto: upto})
 			}
 		}
 	case "requires", "ensures", "panics_only_if", "ensures_on_panic", "invariant", "decreases", "assume":
